@@ -78,12 +78,19 @@ inline size_t tokenMutate(uint8_t *data, size_t size, size_t maxSize, unsigned s
   uint32_t r = seed * 2654435761u + 12345;
   auto rnd = [&](size_t n) { r = r * 1664525u + 1013904223u; return n ? (size_t)((r >> 8) % n) : 0; };
   size_t i = rnd(t.size());
-  switch (rnd(6)) {
+  switch (rnd(7)) {
   case 0: t.erase(t.begin() + i); break;                                   // delete a token
   case 1: t.insert(t.begin() + i, t[i]); break;                            // duplicate
   case 2: { size_t j = rnd(t.size()); std::swap(t[i], t[j]); break; }      // swap two
   case 3: t[i] = dict[rnd(dictN)]; break;                                  // replace by a keyword/operator
   case 4: t.insert(t.begin() + i, std::string(dict[rnd(dictN)]) + " "); break;
+  case 5: {                                                                // a byte >= 0x80 inside a string or character literal
+    size_t k = i;
+    for (size_t n = 0; n < t.size(); n++, k = (k + 1) % t.size()) if (t[k].size() >= 3 && (t[k][0] == '"' || t[k][0] == '\'')) break;
+    if (t[k].size() >= 3 && (t[k][0] == '"' || t[k][0] == '\'')) t[k][1 + rnd(t[k].size() - 2)] = (char)(0x80 + rnd(0x7F));
+    else t[i] = "\"\xe9\"";
+    break;
+  }
   default: {                                                               // duplicate or delete a run of tokens (a group)
     size_t len = 1 + rnd(8);
     if (i + len > t.size()) len = t.size() - i;
